@@ -212,17 +212,18 @@ theorem raw_tail (sc : Bytes) (tx : Tx) (i ht : Nat) (inp : TxIn) (vout2 : List 
     (hwf : FieldsWF tx) (hinp : tx.vin[i]? = some inp) (hc : (scriptCodeNoSep sc).length < 2 ^ 64)
     (hlen : vout2.length = (if isNone ht then 0 else if isSingle ht then i + 1 else tx.vout.length))
     (hmap : vout2.map txOut = (tx.vout.take vout2.length).mapIdx (legacyOutput i ht))
-    (hser : ∀ x ∈ vout2, serTxOut x = .ok (txOut x)) (hl : vout2.length < 2 ^ 64) :
-    ∃ vin3 s, pruneInputs (tx.vin.mapIdx (finalIn (scriptCodeNoSep sc) i ht)) i (ht : Int) = .ok vin3 ∧
+    (hser : ∀ x ∈ vout2, serTxOut x = .ok (txOut x)) (hl : vout2.length < 2 ^ 64)
+    {h : Int} (hr : HtRel h ht) :
+    ∃ vin3 s, pruneInputs (tx.vin.mapIdx (finalIn (scriptCodeNoSep sc) i ht)) i h = .ok vin3 ∧
       serTx { tx with vin := vin3, vout := vout2, wit := [] } = .ok s ∧
-      s ++ leBytes 4 ht = legacyPreimage sc tx i ht := by
+      s = legacyTxBytes sc tx i ht := by
   obtain ⟨hv1, hv2, hvl, _, hin, _, hlock⟩ := hwf
   have hF := finalIn_ser_ok tx.vin (scriptCodeNoSep sc) i ht hin hc
   have hFi : (tx.vin.mapIdx (finalIn (scriptCodeNoSep sc) i ht))[i]? = some (finalIn (scriptCodeNoSep sc) i ht i inp) := by
     rw [List.getElem?_mapIdx, hinp]; rfl
   by_cases ha : isAnyoneCanPay ht = true
   · refine ⟨[finalIn (scriptCodeNoSep sc) i ht i inp], _, ?_, scratch_ser tx _ vout2 hv1 hv2 hlock (by simp) ?_ hl hser, ?_⟩
-    · have : ((ht : Int) / 128 % 2 ≠ 0) := (ht_acp_iff ht).mpr ha
+    · have : (h / 128 % 2 ≠ 0) := (ht_acp_iff hr).mpr ha
       simp only [pruneInputs]
       rw [if_pos this]
       simp only [pyGetNat, hFi, bind_ok, pure_ok]
@@ -230,28 +231,36 @@ theorem raw_tail (sc : Bytes) (tx : Tx) (i ht : Nat) (inp : TxIn) (vout2 : List 
       simp only [List.mem_singleton] at hx
       subst hx
       exact hF _ (List.mem_of_getElem? hFi)
-    · simp only [legacyPreimage, legacyTxBytes, ha, if_true, hinp, Option.toList_some, List.map_cons, List.map_nil,
+    · simp only [legacyTxBytes, ha, if_true, hinp, Option.toList_some, List.map_cons, List.map_nil,
         vec, txIn_finalIn, ← hlen, ← hmap, List.append_assoc, List.length_singleton, List.length_cons, List.length_nil]
   · refine ⟨tx.vin.mapIdx (finalIn (scriptCodeNoSep sc) i ht), _, ?_,
       scratch_ser tx _ vout2 hv1 hv2 hlock (by rw [List.length_mapIdx]; exact hvl) hF hl hser, ?_⟩
-    · have : ¬ ((ht : Int) / 128 % 2 ≠ 0) := fun hh => ha ((ht_acp_iff ht).mp hh)
+    · have : ¬ (h / 128 % 2 ≠ 0) := fun hh => ha ((ht_acp_iff hr).mp hh)
       simp only [pruneInputs]
       rw [if_neg this]
       simp only [pure_ok]
     · simp only [Bool.not_eq_true] at ha
-      simp only [legacyPreimage, legacyTxBytes, ha, Bool.false_eq_true, if_false, vec, map_txIn_final,
+      simp only [legacyTxBytes, ha, Bool.false_eq_true, if_false, vec, map_txIn_final,
         ← hlen, ← hmap, List.append_assoc, List.length_mapIdx]
 
 
 theorem blank_ser_ok : serTxOut blankTxOut = .ok (txOut blankTxOut) :=
   serTxOut_ok (by decide) (by decide) (by decide)
 
-/-- RawSignatureHash on a script that parses, an in-range transaction and a hash type in [0, 2^31):
-    exactly the consensus digest and error indication -/
-theorem raw_eq (sc : Bytes) (tx : Tx) (i ht : Nat) (hp : parses sc) (hsc : sc.length < 2 ^ 64)
-    (hwf : FieldsWF tx) (hht : ht < 2 ^ 31) :
-    rawSignatureHash sc tx i (ht : Int) = .ok (legacySighash sc tx i ht) := by
-  unfold rawSignatureHash legacySighash
+theorem map_ok {α β} (f : α → β) (a : α) : Except.map f (Except.ok a : Res α) = Except.ok (f a) := rfl
+theorem map_err {α β} (f : α → β) (e : Exc) : Except.map f (Except.error e : Res α) = Except.error e := rfl
+
+/-- RawSignatureHash on a script that parses and an in-range transaction, for ANY Python int `h` as
+    hash type whose mode bits are those of `ht`: the two "constant one" cases, otherwise the digest of
+    the consensus serialisation followed by `struct.pack('<i', h)` — whose range error is the only
+    exception that can escape. -/
+theorem raw_eq_gen (sc : Bytes) (tx : Tx) (i ht : Nat) (hp : parses sc) (hsc : sc.length < 2 ^ 64)
+    (hwf : FieldsWF tx) {h : Int} (hr : HtRel h ht) :
+    rawSignatureHash sc tx i h =
+      if i ≥ tx.vin.length then .ok (hashOne, true)
+      else if isSingle ht = true ∧ i ≥ tx.vout.length then .ok (hashOne, true)
+      else (packI 4 h).map (fun hb => (Crypto.hash256 (legacyTxBytes sc tx i ht ++ hb), false)) := by
+  unfold rawSignatureHash
   by_cases hi : i ≥ tx.vin.length
   · rw [if_pos hi, if_pos hi, hashOne_eq]
   · rw [if_neg hi, if_neg hi]
@@ -265,19 +274,20 @@ theorem raw_eq (sc : Bytes) (tx : Tx) (i ht : Nat) (hp : parses sc) (hsc : sc.le
     simp only [fromTx_ok tx hwf, findAndDelete_parses hp, hsigned, bind_ok, vin1_eq tx.vin i _ _ hinp]
     have hout := hwf.2.2.2.2.2.1
     have hvoutlen := hwf.2.2.2.1
-    have hpk := packI_ht hht
+    rcases hpk : packI 4 h with e | hb
+    all_goals (
     by_cases h2 : isNone ht = true
     · -- SIGHASH_NONE
       have h3 : ¬ isSingle ht = true := fun h3 => not_none_and_single ht ⟨h2, h3⟩
-      have hm2 : (ht : Int) % 32 = 2 := (ht_none_iff ht).mpr h2
+      have hm2 : h % 32 = 2 := (ht_none_iff hr).mpr h2
       obtain ⟨vin3, s, hpi, hser, hpre⟩ := raw_tail sc tx i ht tx.vin[i] [] hwf hinp hc
-        (by simp [h2]) (by simp) (by simp) (by simp)
+        (by simp [h2]) (by simp) (by simp) (by simp) hr
       simp only [pruneOutputs, hm2, if_true, zeroOtherSeq_blanked tx.vin i ht _ (Or.inr h2), hpi, hser, hpk,
-        bind_ok, pure_ok, h3, Bool.false_eq_true, false_and, if_false, hpre]
-    · have hm2 : ¬ (ht : Int) % 32 = 2 := fun hh => h2 ((ht_none_iff ht).mp hh)
+        bind_ok, bind_err, map_ok, map_err, pure_ok, h3, Bool.false_eq_true, false_and, if_false, hpre]
+    · have hm2 : ¬ h % 32 = 2 := fun hh => h2 ((ht_none_iff hr).mp hh)
       by_cases h3 : isSingle ht = true
       · -- SIGHASH_SINGLE
-        have hm3 : (ht : Int) % 32 = 3 := (ht_single_iff ht).mpr h3
+        have hm3 : h % 32 = 3 := (ht_single_iff hr).mpr h3
         have h32 : ¬ ((3 : Int) = 2) := by decide
         cases hvo : tx.vout[i]? with
         | none =>
@@ -298,20 +308,33 @@ theorem raw_eq (sc : Bytes) (tx : Tx) (i ht : Nat) (hp : parses sc) (hsc : sc.le
                 rcases hx with ⟨_, rfl⟩ | rfl
                 · exact blank_ser_ok
                 · exact serTxOut_ok (hout x hmo).1 (hout x hmo).2.1 (hout x hmo).2.2)
-            (by simp; omega)
+            (by simp; omega) hr
           simp only [pruneOutputs, hm3, h32, if_false, if_true, hvo,
             zeroOtherSeq_blanked tx.vin i ht _ (Or.inl h3), hpi, hser, hpk, bind_ok, pure_ok, h3, hge,
-            and_false, hpre]
+            and_false, if_false, bind_err, map_ok, map_err, hpre]
       · -- every other type (ALL and the undefined ones)
-        have hm3 : ¬ (ht : Int) % 32 = 3 := fun hh => h3 ((ht_single_iff ht).mp hh)
+        have hm3 : ¬ h % 32 = 3 := fun hh => h3 ((ht_single_iff hr).mp hh)
         simp only [Bool.not_eq_true] at h2 h3
         obtain ⟨vin3, s, hpi, hser, hpre⟩ := raw_tail sc tx i ht tx.vin[i] tx.vout hwf hinp hc
           (by simp [h2, h3])
           (by rw [outs_all tx.vout i ht h3])
           (fun x hx => serTxOut_ok (hout x hx).1 (hout x hx).2.1 (hout x hx).2.2)
-          hvoutlen
+          hvoutlen hr
         simp only [pruneOutputs, hm2, hm3, if_false, blanked_eq_final tx.vin i ht _ h3 h2, hpi, hser, hpk,
-          bind_ok, pure_ok, h3, Bool.false_eq_true, false_and, hpre]
+          bind_ok, bind_err, map_ok, map_err, pure_ok, h3, Bool.false_eq_true, false_and, if_false, hpre])
+
+/-- … in particular, when `struct.pack('<i', h)` yields the four little-endian bytes of `ht`: exactly the
+    consensus digest and error indication -/
+theorem raw_eq (sc : Bytes) (tx : Tx) (i ht : Nat) (hp : parses sc) (hsc : sc.length < 2 ^ 64)
+    (hwf : FieldsWF tx) {h : Int} (hr : HtRel h ht) (hpk : packI 4 h = .ok (leBytes 4 ht)) :
+    rawSignatureHash sc tx i h = .ok (legacySighash sc tx i ht) := by
+  rw [raw_eq_gen sc tx i ht hp hsc hwf hr, hpk]
+  unfold legacySighash legacyPreimage
+  split
+  · rfl
+  · split
+    · rfl
+    · rfl
 
 /-! ### `CScript.is_witness_scriptpubkey` -/
 
